@@ -102,7 +102,7 @@ def proofs(pid, mod):
     """Returns dict(obligations, discharged, theorems, axioms, errors)."""
     res = {"obligations": 0, "discharged": 0, "theorems": [], "axioms": {}, "errors": []}
     comps = sorted({p.component for p in mod.PARTS})
-    e = dict(os.environ); e["VERIF_PROPS"] = pid
+    e = dict(os.environ); e["VERIF_PROPS"] = " ".join([pid] + list(getattr(mod, "EXTRA_PROPS", [])))
     r = run([os.path.join(V, "tools", "build_model.sh")] + comps, env=e)
     res["build_status"] = r.returncode
     res["build_log"] = r.stdout[-3000:]
@@ -113,15 +113,25 @@ def proofs(pid, mod):
     if not os.path.exists(props_file):
         res["errors"].append("missing " + props_file)
         return res
-    src = strip_comments(open(props_file).read())
-    thms = re.findall(r"^\s*(?:Theorem|Lemma|Corollary)\s+([A-Za-z0-9_']+)", src, re.M)
+    # a property may have further theorem files (e.g. compositions with other components): EXTRA_PROPS = ["C01System"]
+    files = [pid] + list(getattr(mod, "EXTRA_PROPS", []))
+    thms, owner = [], {}
+    for f in files:
+        pf = os.path.join(V, "coq", "theories", "Props", f + ".v")
+        if not os.path.exists(pf):
+            res["errors"].append("missing " + pf)
+            continue
+        src = strip_comments(open(pf).read())
+        for t in re.findall(r"^\s*(?:Theorem|Lemma|Corollary)\s+([A-Za-z0-9_']+)", src, re.M):
+            thms.append(t); owner[t] = f
     res["theorems"] = thms
     res["obligations"] = len(thms)
     bad = audit_sources()
     if bad:
         res["errors"].append("forbidden commands: " + "; ".join(bad[:10]))
-    if not os.path.exists(os.path.join(V, "coq", "theories", "Props", pid + ".vo")):
-        res["errors"].append(f"Props/{pid}.v (or a file it depends on) does not compile: " + r.stdout[-1500:])
+    for f in files:
+        if not os.path.exists(os.path.join(V, "coq", "theories", "Props", f + ".vo")):
+            res["errors"].append(f"Props/{f}.v (or a file it depends on) does not compile: " + r.stdout[-1500:])
     if res["errors"]:
         return res
     # Print Assumptions for every theorem, in a throw-away file that imports the compiled Props
@@ -129,9 +139,10 @@ def proofs(pid, mod):
     os.makedirs(adir, exist_ok=True)
     af = os.path.join(adir, f"A_{pid}.v")
     with open(af, "w") as fh:
-        fh.write(f"From ICS Require Props.{pid}.\n")
+        for f in files:
+            fh.write(f"From ICS Require Props.{f}.\n")
         for t in thms:
-            fh.write(f'Goal True. idtac "@@THM {t}". exact I. Qed.\nPrint Assumptions ICS.Props.{pid}.{t}.\n')
+            fh.write(f'Goal True. idtac "@@THM {t}". exact I. Qed.\nPrint Assumptions ICS.Props.{owner[t]}.{t}.\n')
     r = run(["coqc", "-Q", os.path.join(V, "coq", "theories"), "ICS", af], cwd=adir)
     if r.returncode != 0:
         res["errors"].append("assumption audit failed: " + r.stdout[-1500:])
